@@ -1475,11 +1475,11 @@ def extend_trial_data_file(
     """
     # Use unique seed to generate non identical trials.
     if rss.seed in trial_data['seed']:
+        used_seeds = np.unique(trial_data['seed'])
         seed = next(
             i
-            for (i, e) in enumerate(
-                sorted(np.unique(trial_data['seed'])) + [None], 1)
-            if i != e)
+            for i in range(1, len(used_seeds) + 2)
+            if i not in used_seeds)
         rss.reseed(seed)
 
     (seed, mean_n_sig, mean_n_sig_null, trials) = create_trial_data_file(
